@@ -95,3 +95,30 @@ Proof.
       destruct (Nat.leb_spec (length ra + length l) max_len); [lia|reflexivity].
   - cbn [closed existsb]. rewrite app_nil_r. split; reflexivity.
 Qed.
+
+(* every framed line is free of LF: a received line is one line *)
+Lemma lines_of_nolf s : Forall nolf (fst (lines_of s)).
+Proof.
+  induction s as [|c s IH]; [constructor|]. cbn [lines_of]. destruct (lines_of s) as [ls r]. cbn [fst] in *.
+  destruct (N.eqb c LF) eqn:E.
+  - constructor; [reflexivity|exact IH].
+  - destruct ls as [|l ls]; [constructor|]. inversion IH as [|? ? Hl Hls]; subst. constructor; [|exact Hls].
+    unfold nolf. cbn [forallb]. now rewrite E, Hl.
+Qed.
+
+Lemma strip_cr_nolf l : nolf l -> nolf (strip_cr l).
+Proof.
+  unfold strip_cr. intros H. destruct (rev l) as [|c r] eqn:E; [exact H|]. destruct (N.eqb c CR); [|exact H].
+  assert (l = rev r ++ [c]) as -> by (rewrite <- (rev_involutive l), E; reflexivity).
+  unfold nolf in *. rewrite forallb_app in H. now apply andb_true_iff in H as [H _].
+Qed.
+
+Theorem framed_lines_nolf pending seg l : In (FLine l) (fst (feed pending seg)) -> nolf l.
+Proof.
+  unfold feed. pose proof (lines_of_nolf (pending ++ seg)) as H. destruct (lines_of (pending ++ seg)) as [ls r]. cbn [fst] in *.
+  induction ls as [|x ls IH]; cbn [frames_of].
+  - destruct (Nat.ltb max_len (length r)); [intros [E|[]]; discriminate E|intros []].
+  - inversion H as [|? ? Hx Hls]; subst. destruct (Nat.leb (length x) max_len).
+    + intros [[= <-]|Hin]; [now apply strip_cr_nolf|now apply IH].
+    + intros [E|[]]. discriminate E.
+Qed.
